@@ -131,6 +131,23 @@ pub struct ConcResult {
     pub ctl_line: String,
     /// `rw …` requests for the Lean tree-bin lock monitor: one per `lock_state` word the run touched
     pub rw_lines: Vec<String>,
+    /// every change of the abstract content of the real structure during the run, with the write
+    /// that caused it (see `abs_of`, `abs_points`)
+    pub abs_changes: Vec<AbsChange>,
+    pub abs_init: BTreeMap<u32, (u64, u32)>,
+}
+
+/// one change of the abstract content: after the write event `ix` of thread `tid` a lookup of
+/// `key` started now would find `after` instead of `before`
+#[derive(Clone, Debug)]
+pub struct AbsChange {
+    pub ix: usize,
+    pub tid: usize,
+    pub key: u32,
+    pub before: Option<(u64, u32)>,
+    pub after: Option<(u64, u32)>,
+    pub file: &'static str,
+    pub line: u32,
 }
 
 type M = HashMap<K, V, TableHasher>;
@@ -404,6 +421,52 @@ fn tree_list_probe(map: &M, ev: &TraceEv) -> Vec<String> {
     out
 }
 
+/// The abstract content of the real structure, read off a structural dump taken while every worker
+/// is suspended: for every key what a lookup started now would find (`Proto/Bin*`: `absOf`). A
+/// lookup goes to the bin of the current table, follows forwarding markers into the next table
+/// (bins `i` and `i + n`), and takes the first node with the key on the bin's `next` list (for a
+/// tree bin "the list is the truth", `BinU.tree_eq_list_unlocked`; tree = list is probed separately).
+fn abs_of(map: &M) -> BTreeMap<u32, (u64, u32)> {
+    use flurry::verif_inspect::{BinSnap, TableSnap};
+    fn collect(t: &TableSnap<'_, K, V>, i: usize, out: &mut BTreeMap<u32, (u64, u32)>) {
+        let mut put = |k: &K, v: Option<&V>| {
+            out.entry(k.id).or_insert(v.map(|v| (v.payload, v.origin)).unwrap_or((u64::MAX, 0)));
+        };
+        match &t.bins[i] {
+            BinSnap::Empty => {}
+            BinSnap::Moved => {
+                if let Some(f) = &t.forward {
+                    if i < f.len {
+                        collect(f, i, out);
+                    }
+                    if i + t.len < f.len {
+                        collect(f, i + t.len, out);
+                    }
+                }
+            }
+            BinSnap::List(v) => {
+                for n in v {
+                    put(n.key, n.value);
+                }
+            }
+            BinSnap::Tree { nodes, .. } => {
+                for n in nodes {
+                    put(n.node.key, n.node.value);
+                }
+            }
+        }
+    }
+    let g = map.guard();
+    let snap = map.verif_snapshot(&g);
+    let mut out = BTreeMap::new();
+    if let Some(t) = &snap.table {
+        for i in 0..t.len {
+            collect(t, i, &mut out);
+        }
+    }
+    out
+}
+
 pub fn run_conc(case: &ConcCase, record_all: bool, budget: usize) -> ConcResult {
     CALL_CLOCK.store(0, std::sync::atomic::Ordering::SeqCst);
     let th = TableHasher { table: Arc::new(case.hashes.clone()) };
@@ -450,6 +513,30 @@ pub fn run_conc(case: &ConcCase, record_all: bool, budget: usize) -> ConcResult 
         let mp = map.clone();
         *MID_PROBE.lock().unwrap() = Some(Box::new(move |ev: &TraceEv| tree_list_probe(&mp, ev)));
     }
+    // C01 / C08 / C10 / C07: the abstract content of the real structure changes only at a write of a
+    // call that updates that very key, and then as the specification says (`abs_points`)
+    let abs_init = abs_of(&map);
+    let abs_changes: Arc<std::sync::Mutex<Vec<AbsChange>>> = Arc::new(std::sync::Mutex::new(vec![]));
+    if std::env::var("VERIF_NO_ABS_PROBE").is_err() {
+        let mp = map.clone();
+        let prev = std::sync::Mutex::new(abs_init.clone());
+        let ch = abs_changes.clone();
+        *ABS_PROBE.lock().unwrap() = Some(Box::new(move |tid: usize, ix: usize, ev: &TraceEv| {
+            let now = abs_of(&mp);
+            let mut prev = prev.lock().unwrap();
+            if *prev != now {
+                let keys: std::collections::BTreeSet<u32> = prev.keys().chain(now.keys()).copied().collect();
+                let mut ch = ch.lock().unwrap();
+                for k in keys {
+                    let (b, a) = (prev.get(&k).copied(), now.get(&k).copied());
+                    if b != a {
+                        ch.push(AbsChange { ix, tid, key: k, before: b, after: a, file: ev.file, line: ev.line });
+                    }
+                }
+                *prev = now;
+            }
+        }));
+    }
     let calls: Arc<std::sync::Mutex<Vec<Call>>> = Arc::new(std::sync::Mutex::new(vec![]));
     let mut handles = vec![];
     for (tid, prog) in case.programs.iter().cloned().enumerate() {
@@ -482,6 +569,8 @@ pub fn run_conc(case: &ConcCase, record_all: bool, budget: usize) -> ConcResult 
     let mut rng = Rng(case.seed ^ 0x5EED);
     let outcome = drive(&s, &case.policy, &mut rng, budget);
     *MID_PROBE.lock().unwrap() = None;
+    *ABS_PROBE.lock().unwrap() = None;
+    let abs_changes = abs_changes.lock().unwrap().clone();
     let mut panicked = vec![];
     if !outcome.deadlock && !outcome.budget_exceeded {
         for h in handles {
@@ -638,7 +727,7 @@ pub fn run_conc(case: &ConcCase, record_all: bool, budget: usize) -> ConcResult 
         }
         streams.into_iter().map(|(_, evs)| format!("rw n={} q={} ev={}", n + 1, (!stuck) as u8, evs.join(","))).collect::<Vec<_>>()
     };
-    let mut r = ConcResult { calls, trace, outcome, final_contents, final_snap, wf, panicked, len_final, life_failures, ctl_line, rw_lines };
+    let mut r = ConcResult { calls, trace, outcome, final_contents, final_snap, wf, panicked, len_final, life_failures, ctl_line, rw_lines, abs_changes, abs_init };
     // Judge before teardown: when the run already shows a violation the map may be corrupt
     // (an entry retired twice, a dangling bin), and dropping it would take the process down
     // before the violation is reported. Such a map is leaked instead.
@@ -790,6 +879,12 @@ pub fn linearize(calls: &[Call], init: KState, fin: Option<KState>) -> Option<Ve
 
 pub struct Verdicts {
     pub failures: Vec<String>,
+    /// `[abs-point]`: effects of updates witnessed on the real structure at one write of the call /
+    /// reads and effect-less updates explained by a state the key had during the call
+    pub abs_points: usize,
+    pub abs_reads: usize,
+    /// per-key certificates whose order is the one read off the real structure (`point_order`)
+    pub point_orders: usize,
     pub keys_checked: usize,
     pub witnesses: BTreeMap<u32, Vec<usize>>,
     /// one `lin init=.. fin=.. calls=.. order=..` line per key, for the Lean certificate checker
@@ -901,6 +996,7 @@ pub fn judge(case: &ConcCase, r: &ConcResult) -> Verdicts {
     }
     let r_calls = &all_calls;
     let mut keys_checked = 0;
+    let mut point_orders = 0usize;
     if finished && !whole_map_writes {
         for k in &keys {
             let init = KState(case.prefill.iter().rev().find(|e| e.0 == *k).map(|e| (e.1, e.2)));
@@ -910,6 +1006,15 @@ pub fn judge(case: &ConcCase, r: &ConcResult) -> Verdicts {
             keys_checked += 1;
             match linearize(&cs, init, Some(fin)) {
                 Some(w) => {
+                    // prefer the order read off the real structure (every call at its witnessed
+                    // linearization point) as the certificate the Lean checker validates
+                    let w = match point_order(r, *k, &cs, init, fin) {
+                        Some(wp) => {
+                            point_orders += 1;
+                            wp
+                        }
+                        None => w,
+                    };
                     if cs.len() <= 40 {
                         let calls_txt: Option<Vec<String>> = cs.iter().map(call_txt).collect();
                         if let Some(ct) = calls_txt {
@@ -1060,7 +1165,184 @@ pub fn judge(case: &ConcCase, r: &ConcResult) -> Verdicts {
             f.push(format!("[quiescent] {}", w));
         }
     }
-    Verdicts { failures: f, keys_checked, witnesses, lin_lines }
+    let (af, abs_points, abs_reads) = abs_points(case, r);
+    f.extend(af);
+    Verdicts { failures: f, abs_points, abs_reads, point_orders, keys_checked, witnesses, lin_lines }
+}
+
+/// The linearization of key `k`'s calls read off the real structure: an update stands at the write
+/// that changed what a lookup of `k` finds, a read or an update without effect at the first moment
+/// of its interval at which its result fits the state of `k`. `None` if some call has no such
+/// place, if pseudo-operations are involved, or if the order does not replay (then the order found
+/// by search is used as the certificate instead).
+fn point_order(r: &ConcResult, k: u32, cs: &[Call], init: KState, fin: KState) -> Option<Vec<usize>> {
+    if r.abs_changes.is_empty() && r.abs_init.is_empty() && cs.iter().any(|c| !c.op.is_read()) {
+        return None;
+    }
+    let mut pos: Vec<(usize, usize, usize, usize)> = vec![];
+    for (i, c) in cs.iter().enumerate() {
+        if !matches!(c.op, COp::Ins(..) | COp::TryIns(..) | COp::Get(_) | COp::GetKv(_) | COp::Has(_) | COp::Rm(_) | COp::Rme(_) | COp::CipInc(..) | COp::CipRm(_)) {
+            return None;
+        }
+        let own: Vec<&AbsChange> = r.abs_changes.iter().filter(|ch| ch.key == k && ch.tid == c.tid && c.trace_from <= ch.ix && ch.ix < c.trace_to).collect();
+        let p = if own.len() == 1 && !c.op.is_read() {
+            2 * own[0].ix + 1
+        } else if own.is_empty() {
+            let mut cur = r.abs_init.get(&k).copied();
+            for ch in r.abs_changes.iter().filter(|ch| ch.key == k && ch.ix < c.trace_from) {
+                cur = ch.after;
+            }
+            let mut found = if spec_step(KState(cur), c) == Some(KState(cur)) { Some(2 * c.trace_from) } else { None };
+            if found.is_none() {
+                for ch in r.abs_changes.iter().filter(|ch| ch.key == k && c.trace_from <= ch.ix && ch.ix < c.trace_to) {
+                    if spec_step(KState(ch.after), c) == Some(KState(ch.after)) {
+                        found = Some(2 * ch.ix + 2);
+                        break;
+                    }
+                }
+            }
+            found?
+        } else {
+            return None;
+        };
+        pos.push((p, c.inv, c.tid, i));
+    }
+    pos.sort();
+    let order: Vec<usize> = pos.iter().map(|x| x.3).collect();
+    // replay: results, final state, real-time order
+    let mut st = init;
+    for &i in &order {
+        st = spec_step(st, &cs[i])?;
+    }
+    if st != fin {
+        return None;
+    }
+    for a in 0..order.len() {
+        for b in a + 1..order.len() {
+            if cs[order[b]].resp < cs[order[a]].inv {
+                return None;
+            }
+        }
+    }
+    Some(order)
+}
+
+/// **Linearization points witnessed on the real structure** (the hypothesis of
+/// `C01.linearization_points`, and the conclusions of `BinW.storeAt_eq_writerStore_reachable`,
+/// `BinK.conversion_abs_invariant`, `BinX.transfer_abs_invariant`, checked on the real run).
+/// `r.abs_changes` lists every change of the abstract content ("what a lookup started now would
+/// find", `abs_of`) together with the write that caused it. Required:
+/// * a change is caused by a write of a call that updates that very key (or by `clear` / `retain`):
+///   nothing `transfer`, `help_transfer`, `treeify_bin`, `untreeify`, `init_table`, `try_presize` or
+///   a read does changes the content;
+/// * a single-key update changes its key at most once, and the change is what the sequential
+///   specification does to the state found there, with the result the call returned (for
+///   `compute_if_present`: the closure saw exactly that state);
+/// * a single-key update without any effect, and every read, is explained by a state its key had
+///   at some moment of the call.
+/// Together these give a linearization (every call placed at its witnessed point), so this is a
+/// sufficient condition checked on the structure itself; it reports what black-box histories only
+/// show when some reader happens to look at the wrong moment.
+pub fn abs_points(case: &ConcCase, r: &ConcResult) -> (Vec<String>, usize, usize) {
+    let mut f = vec![];
+    let finished = !r.outcome.deadlock && !r.outcome.budget_exceeded;
+    if !finished || (r.abs_changes.is_empty() && r.calls.is_empty()) {
+        return (f, 0, 0);
+    }
+    let _ = case;
+    let fmt = |x: Option<(u64, u32)>| match x {
+        Some((p, o)) => format!("({}, {})", p, o),
+        None => "absent".to_string(),
+    };
+    let mut own: BTreeMap<(usize, usize), Vec<&AbsChange>> = BTreeMap::new(); // (tid, idx) of the call -> its changes
+    let (mut points, mut reads) = (0usize, 0usize);
+    for ch in &r.abs_changes {
+        let Some(c) = r.calls.iter().find(|c| c.tid == ch.tid && c.trace_from <= ch.ix && ch.ix < c.trace_to) else {
+            if !r.panicked.contains(&ch.tid) {
+                f.push(format!("[abs-point] the write of t{} at {}:{} changed key {} from {} to {} outside any call", ch.tid, ch.file, ch.line, ch.key, fmt(ch.before), fmt(ch.after)));
+            }
+            continue;
+        };
+        let head = format!("[abs-point] t{} `{}` [{}..{}] -> {}: its write at {}:{} changed what a lookup of key {} finds from {} to {}", c.tid, c.op.text(), c.inv, c.resp, c.result, ch.file, ch.line, ch.key, fmt(ch.before), fmt(ch.after));
+        match &c.op {
+            COp::Ins(k, ..) | COp::TryIns(k, ..) | COp::Rm(k) | COp::Rme(k) | COp::CipInc(k, _) | COp::CipRm(k) => {
+                if *k != ch.key {
+                    f.push(format!("{}: not the key of the call (moving, converting or initialising bins must not change the content)", head));
+                    continue;
+                }
+                own.entry((c.tid, c.idx)).or_default().push(ch);
+                match spec_step(KState(ch.before), c) {
+                    Some(st) if st == KState(ch.after) => points += 1,
+                    _ => f.push(format!("{}: not what the call does to that state with the result it returned", head)),
+                }
+            }
+            COp::Clear => {
+                if ch.after.is_some() {
+                    f.push(format!("{}: clear only removes", head));
+                } else {
+                    points += 1;
+                }
+            }
+            COp::Retain(_, force) | COp::RetainPanic(_, force, _) => {
+                let verdicts = c.result.split(" | ").next().unwrap_or("");
+                let rejected = verdicts.split(',').any(|v| {
+                    let p: Vec<&str> = v.split(':').collect();
+                    p.len() == 3 && p[2] == "false" && p[0].parse::<u32>().ok() == Some(ch.key) && (*force || ch.before.map(|b| b.1.to_string()) == Some(p[1].to_string()))
+                });
+                if ch.after.is_some() || !rejected {
+                    f.push(format!("{}: retain removes only an entry whose current value its predicate rejected (verdicts {})", head, verdicts));
+                } else {
+                    points += 1;
+                }
+            }
+            _ => f.push(format!("{}: this call does not update the map", head)),
+        }
+    }
+    // the states key `k` went through during the events [from, to)
+    let during = |k: u32, from: usize, to: usize| -> Vec<Option<(u64, u32)>> {
+        let mut cur = r.abs_init.get(&k).copied();
+        let mut out = vec![];
+        let mut started = false;
+        for ch in r.abs_changes.iter().filter(|ch| ch.key == k) {
+            if ch.ix < from {
+                cur = ch.after;
+            } else if ch.ix < to {
+                if !started {
+                    out.push(cur);
+                    started = true;
+                }
+                out.push(ch.after);
+            }
+        }
+        if !started {
+            out.push(cur);
+        }
+        out
+    };
+    for c in &r.calls {
+        let single = matches!(c.op, COp::Ins(..) | COp::TryIns(..) | COp::Rm(..) | COp::Rme(..) | COp::CipInc(..) | COp::CipRm(..) | COp::CipPanic(..));
+        let read = matches!(c.op, COp::Get(_) | COp::GetKv(_) | COp::Has(_));
+        let n_own = own.get(&(c.tid, c.idx)).map(|v| v.len()).unwrap_or(0);
+        if single && n_own > 1 {
+            f.push(format!("[abs-point] t{} `{}` [{}..{}] -> {}: the call changed its key {} times: {:?}", c.tid, c.op.text(), c.inv, c.resp, c.result, n_own, own[&(c.tid, c.idx)].iter().map(|ch| format!("{} -> {} at {}:{}", fmt(ch.before), fmt(ch.after), ch.file, ch.line)).collect::<Vec<_>>()));
+        }
+        if (single && n_own == 0) || read {
+            let Some(k) = c.op.key() else { continue };
+            let states = during(k, c.trace_from, c.trace_to);
+            if states.iter().any(|st| spec_step(KState(*st), c) == Some(KState(*st))) {
+                reads += 1;
+            } else {
+                f.push(format!(
+                    "[abs-point] t{} `{}` [{}..{}] -> {}: {} and the result fits none of the states its key had during the call: {}",
+                    c.tid, c.op.text(), c.inv, c.resp, c.result,
+                    if read { "a read" } else { "the call never changed what a lookup finds" },
+                    states.iter().map(|s| fmt(*s)).collect::<Vec<_>>().join(", ")
+                ));
+            }
+        }
+    }
+    f.truncate(6);
+    (f, points, reads)
 }
 
 // ------------------------------------------------------------------------------------------
